@@ -184,6 +184,17 @@ func c14Exemplars() []*m.Program {
 		one(m.NText("a"), &m.N{K: "verbatim", S: "{{ raw }}{% x %}"}, m.NText("b")),
 		one(m.NText("a"), &m.N{K: "comment", S: " c "}, m.NPrint(x)),
 	)
+	// words that are also operators or keywords, used as attribute names, hash
+	// keys, variables and macro names: whatever stick makes of them (several are
+	// syntax errors), it must make the same of every spelling
+	wordHash := func(w string) *m.E {
+		return &m.E{K: "hash", KS: []*m.E{m.EName(w)}, A: []*m.E{m.ENum(1)}}
+	}
+	for _, w := range []string{"in", "is", "not", "and", "or", "matches", "if", "for", "with", "only", "as", "b", "starts", "true", "null", "divisible"} {
+		out = append(out, pr(m.EAttr(m.EName("item"), w)), pr(m.EAttr(wordHash(w), w)), pr(m.EBin("+", m.EName(w), m.ENum(1))),
+			one(&m.N{K: "set", S: w, X: m.ENum(2)}, m.NPrint(m.EName(w))),
+			one(&m.N{K: "for", S: w, X: m.EName("arr"), Body: []*m.N{m.NPrint(m.EName(w))}}))
+	}
 	return out
 }
 
